@@ -17,7 +17,7 @@ TRANSLATORS = [t2_pointwise.translate]
 OBLIGATIONS = ["NiftyVerif.C04." + t for t in (
     "eval_congr", "lin_congr_env", "jac_congr", "pe_target", "pe_sound", "pe_jac", "jac_zero",
     "partialVar_grad_zero", "partialVar_eq_pe", "energyAdapter_constants", "adj_support", "pe_adj", "metric_congr",
-    "metric_support", "pe_metric_partial", "hamiltonian_pe_offset_partial", "pe_keys")]
+    "metric_support", "pe_metric_partial", "hamiltonian_pe_offset_partial", "pe_keys", "cout_none")]
 RULE = ("generated multi-domain operator/energy trees (as C03, >= 2 input keys) x EVERY non-empty proper subset of the "
         "operator's input keys as constants; per (tree, subset): real simplify_for_constant_input vs original with the "
         "constants inserted (value, dense Jacobian, adjoint, metric), EnergyAdapter(constants=...), make_partial_var, "
